@@ -69,6 +69,7 @@ func init() {
 	extendProp("C17", "(R17.14) SetDefaultDeploymentStrategy is called by the writers of the strategy annotation only, never from the Deployment controller package, which reads the stored strategy as it is.", r8C17)
 	extendProp("C11", "(R11.15) refreshStatus writes status.observedReleasePlanHash only on the path where it is empty.", r8C11)
 	extendProp("C07", "(R7.14) the Rollout controller's workload event handler matches a workload to its Rollout by group, kind and name and never by API version (no comparison of whole GroupVersionKind values).", r8C07)
+	extendProp("C06", "(R6.10) RestoreStableService reaches its restore step only on the edge where the read of the stable Service returned nil; (R6.11) mutatingProtectionInvalid patches the Deployment (and answers 'invalid') only under IsNotFound(err) or a deletion timestamp of the webhook configuration — any other read error is returned.", r8C06)
 	extendProp("C08", "(R8.10) both admission handlers answer 'this workload is not selected by the webhook configuration' only after every entry and rule was examined (or the entry's selector cannot be parsed): the first entry whose rule matches does not decide alone.", r6C08)
 }
 
@@ -2351,4 +2352,90 @@ func r8C07(c *Ctx) {
 	}
 	c.Ob("R7.14", "getRolloutForWorkload#match-ignores-version", fn.Pos(), n > 0 && bad == "", "the match is group + kind + name",
 		ifs(bad != "", bad+": a Rollout may name its workload through another served version of the same kind (apps.kruise.io/v1alpha1 StatefulSet, watched as v1beta1); its workload events are then dropped, and for a Healthy rollout — which asks for no requeue — nothing else starts the release")+ifs(n == 0, "no return of a matched Rollout found"))
+}
+
+// ---------------------------------------------------------------- C06 R6.10, R6.11 (round 8)
+
+func r8C06(c *Ctx) {
+	p := c.Prog
+	c.Rule("R6.10", "the stable Service is restored only from a Service that was actually read", 1)
+	if fn := p.Func("pkg/trafficrouting.Manager.RestoreStableService"); fn == nil {
+		c.Unresolved("R6.10", "trafficrouting.Manager.RestoreStableService")
+	} else {
+		var get, restore ssa.Instruction
+		for _, ci := range AllCalls(fn) {
+			cc := ci.Common()
+			if cc.IsInvoke() && cc.Method.Name() == "Get" && get == nil {
+				get = ci.(ssa.Instruction)
+			}
+			if strings.Contains(CalleeName(cc), "grace.RunWithGraceSeconds") {
+				restore = ci.(ssa.Instruction)
+			}
+		}
+		if get == nil || restore == nil {
+			c.Unresolved("R6.10", "RestoreStableService: Get of the Service / RunWithGraceSeconds")
+		} else {
+			// the read's error: the call's result, or the variable cell it is stored in (the closure
+			// below captures `err`, so it lives in a cell)
+			isReadErr := func(t *Term) bool {
+				if MResultOf(get.(ssa.CallInstruction), 0)(t) {
+					return true
+				}
+				var al *ssa.Alloc
+				switch v := t.V.(type) {
+				case *ssa.Alloc:
+					al = v
+				case *ssa.UnOp:
+					al, _ = v.X.(*ssa.Alloc)
+				}
+				if al == nil {
+					return false
+				}
+				for _, st := range AllocStoresOf(al) {
+					if st.Addr == ssa.Value(al) && st.Val == get.(ssa.Value) {
+						return true
+					}
+				}
+				return false
+			}
+			ok := FNil(isReadErr)
+			reach, _ := CanReach(PointAfter(get), func(in ssa.Instruction) bool { return in == restore }, ReachOpts{CutEdge: func(b *ssa.BasicBlock, k int) bool { return EdgeFactMatches(b, k, ok) }})
+			c.Ob("R6.10", "RestoreStableService#restore-needs-read", restore.Pos(), !reach, "the restore step is reached only with Get(...) == nil",
+				ifs(reach, "the restore step runs on a path where the read of the stable Service may have failed: the empty object has no pinned selector, 'nothing to restore' is answered, the later assignment overwrites the read error with nil, and the finalising cursor moves past the step for good — the Service stays pinned to the old revision"))
+		}
+	}
+
+	c.Rule("R6.11", "the Deployment controller gives a Deployment back to the native controller only when the webhook configuration is known to be gone", 1)
+	fn := p.Func("pkg/controller/deployment.ReconcileDeployment.mutatingProtectionInvalid")
+	if fn == nil {
+		c.Unresolved("R6.11", "ReconcileDeployment.mutatingProtectionInvalid")
+		return
+	}
+	gone := FOr(FTrue(MCall("errors.IsNotFound")), FFalse(MCall("Time.IsZero", MField("DeletionTimestamp"))))
+	isWrite := apiWrites(p)
+	n := 0
+	bad := ""
+	for _, b := range fn.Blocks {
+		for _, in := range b.Instrs {
+			if !isWrite(in) {
+				continue
+			}
+			n++
+			if reach, _ := CanReach(Entry(fn), func(x ssa.Instruction) bool { return x == in }, ReachOpts{CutEdge: func(bb *ssa.BasicBlock, k int) bool { return EdgeFactMatches(bb, k, gone) }}); reach {
+				bad = "the patch at " + p.Pos(in.Pos()) + " (strategy back to RollingUpdate) is reachable without IsNotFound(err) or a deletion timestamp on the webhook configuration"
+			}
+		}
+	}
+	// and 'invalid' is answered only under the same condition
+	for _, r := range WalkCP(Entry(fn), nil, IsReturn, ReachOpts{CutEdge: func(bb *ssa.BasicBlock, k int) bool { return EdgeFactMatches(bb, k, gone) }}) {
+		ret := r.Instr.(*ssa.Return)
+		if len(ret.Results) != 2 {
+			continue
+		}
+		if v, ok := ResolveConst(ret.Results[0], r.Env); ok && v == "true" {
+			bad = "the return at " + p.Pos(ret.Pos()) + " answers 'protection invalid' without the webhook configuration being known to be gone"
+		}
+	}
+	c.Ob("R6.11", "mutatingProtectionInvalid#only-when-gone", fn.Pos(), n > 0 && bad == "", "a failed read of the webhook configuration is an error, not 'the webhook is gone'",
+		ifs(bad != "", bad+": one transient read error hands a Deployment that is mid-release back to the native controller; nothing undoes that patch, the BatchRelease finds the Deployment 'out of our control', and the rollout waits in Upgrade for ever")+ifs(n == 0, "the patch of the Deployment strategy not found"))
 }
